@@ -29,6 +29,10 @@ type PFaultCase struct {
 	Merge *MergeDef `json:"merge,omitempty"` // nil: persist a world segment
 	Mode  uint32    `json:"mode,omitempty"`
 	Seg   int       `json:"seg,omitempty"`
+	// Prefill: the destination already holds this many bytes when WriteTo is
+	// called (a caller's header, a file opened for appending); what WriteTo adds
+	// behind them is the file
+	Prefill int `json:"prefill,omitempty"`
 }
 
 func init() {
@@ -71,6 +75,9 @@ func genPFaultCase(t *rapid.T, prop string) *Case {
 		}
 	}
 	pc := &PFaultCase{Seg: rapid.IntRange(0, 5).Draw(t, "seg")}
+	if rapid.IntRange(0, 3).Draw(t, "prefill") == 0 {
+		pc.Prefill = rapid.SampledFrom([]int{1, 64, 4096}).Draw(t, "prefill-bytes")
+	}
 	if rapid.IntRange(0, 3).Draw(t, "ismerge") != 0 {
 		pc.Merge = genMergeDef(t, len(wd.Segs))
 		pc.Mode = rapid.SampledFrom(chunkModes).Draw(t, "mode")
@@ -155,6 +162,17 @@ func runPFaultCase(c *Case, env *Env) *Result {
 		var firstBuf []byte
 		firstWrites := 0
 		wr := NewSimWriter(sched)
+		prefill := func() {
+			for i := 0; i < pc.Prefill; i++ {
+				wr.Buf = append(wr.Buf, byte(0xA0+i%7))
+			}
+		}
+		prefill()
+		if wf != nil && pc.Prefill > 0 {
+			shifted := *wf
+			shifted.After += pc.Prefill
+			wf = &shifted
+		}
 		wr.Fault = wf
 		var closeCh chan struct{}
 		closed := false
@@ -197,11 +215,12 @@ func runPFaultCase(c *Case, env *Env) *Result {
 				if out.pi == nil && out.err != nil {
 					// what the first attempt wrote is part of the outcome; then the caller
 					// truncates the SAME destination and asks the same Merger again
-					firstBuf, firstWrites = append([]byte{}, wr.Buf...), wr.Calls
-					wr.Truncate()
+					firstBuf, firstWrites = append([]byte{}, stripPrefill(wr.Buf, pc.Prefill)...), wr.Calls
+					wr.Rewind()
+					prefill()
 					out.retried = true
 					out.retryPi = Guard(func() { out.retryRet, out.retryErr = m.WriteTo(wr, nil) })
-					out.retryBuf = wr.Buf
+					out.retryBuf = stripPrefill(wr.Buf, pc.Prefill)
 				}
 			} else {
 				_, out.ret, out.pi, out.err = RunMerge(pc.Merge, pc.Mode, runSegs, drops, wr, closeCh)
@@ -210,7 +229,7 @@ func runPFaultCase(c *Case, env *Env) *Result {
 			wr.OnWrite = func(int, int) { event++ }
 			out.pi = Guard(func() { out.ret, out.err = target.Seg.WriteTo(wr, nil) })
 		}
-		out.buf = wr.Buf
+		out.buf = stripPrefill(wr.Buf, pc.Prefill)
 		out.events = event
 		out.writes = wr.Calls
 		if out.retried {
@@ -364,7 +383,9 @@ func runPFaultCase(c *Case, env *Env) *Result {
 	// ---- writer failing once (sampled offsets) ----
 	step := L/16 + 1
 	for k := 0; k < L; k += step {
-		o := exec(&WriteFault{After: k, Once: true}, -1)
+		// alternately an "interrupted" error and io.ErrShortWrite (what a size-limited
+		// writer reports; code that "tolerates" it must still write the right file)
+		o := exec(&WriteFault{After: k, Once: true, Short: (k/step)%2 == 1}, -1)
 		res.fault("writer-fails-once", 1, 1)
 		if o.pi != nil {
 			res.Fail = &Fail{Prop: "C12", Oracle: "persist-fault", Kind: "panic", Site: o.pi.Site, Detail: fmt.Sprintf("%s: writer failing once at byte %d of %d: panic: %s", desc, k, L, o.pi.Msg)}
@@ -483,4 +504,23 @@ func freshFailThenRewrite(w *World, target *WSeg, k int, B []byte, desc string, 
 		return mismatch("C11", "footer", "re-persist-after-failed-persist", fmt.Sprintf("%s: the first WriteTo of a fresh object failed at byte %d; the next WriteTo to a healthy writer produced %d bytes differing from the original file at offset %d of %d", desc, k, len(good.Buf), firstDiff(good.Buf, B), len(B)))
 	}
 	return nil
+}
+
+// stripPrefill returns what was written behind the n bytes the destination
+// held before the call. If the destination is now shorter than that, or those
+// bytes were changed, the result is nil plus a marker byte (never equal to a
+// segment file).
+func stripPrefill(buf []byte, n int) []byte {
+	if n == 0 {
+		return buf
+	}
+	if len(buf) < n {
+		return []byte{0xFF}
+	}
+	for i := 0; i < n; i++ {
+		if buf[i] != byte(0xA0+i%7) {
+			return []byte{0xFE}
+		}
+	}
+	return buf[n:]
 }
